@@ -4,7 +4,7 @@ HERE=$(cd "$(dirname "$0")/.." && pwd)
 N=$1; shift
 mkdir -p $HERE/seedlogs
 export SEED_LOGDIR=$HERE/seedlogs
-export SYMX_JOBS=$((16 / N + 2))
+export SYMX_JOBS=${SEED_JOBS:-$((16 / N + 2))}
 sh $HERE/symx/boot.sh >/dev/null 2>&1
 printf '%s\n' "$@" | xargs -P $N -I{} sh -c 'id={}; P=${id%%-*}; sh '$HERE'/tools/seed_eval.sh $id $P quick >> '$HERE'/seedlogs/SUMMARY.txt 2>&1'
 cat $HERE/seedlogs/SUMMARY.txt
